@@ -26,6 +26,7 @@ type Config struct {
 	Seed   int64
 	Tier   string
 	Var    string
+	Shard  int // -1: all shards in this process
 }
 
 // Summary is printed on stdout.
@@ -67,6 +68,7 @@ func main() {
 	flag.Int64Var(&cfg.Seed, "seed", 1, "seed")
 	flag.StringVar(&cfg.Tier, "tier", "quick", "tier")
 	flag.StringVar(&cfg.Var, "var", "", "variant")
+	flag.IntVar(&cfg.Shard, "shard", -1, "explore only this shard (process-level sharding)")
 	flag.StringVar(&replay, "replay", "", "json op path to re-execute")
 	flag.StringVar(&replayOut, "replay-out", "", "with -replay: write the whole path as a linear trace file")
 	flag.Parse()
